@@ -155,7 +155,7 @@ CTX = {"k": 1}  # the context arguments a call spelled "name@ctx" is made under
 
 
 def base(fn):
-    return fn.split("!")[0].split("@")[0]
+    return fn.split("!")[0].split("@")[0].split("%")[0]
 
 
 def fobj(fn):
@@ -166,6 +166,13 @@ def fobj(fn):
     if fn.endswith("!ignore"):
         f = f.ignore_result()
     return f
+
+
+def invoke(fn, x):
+    """One call. "name%kw": the same call spelled through a keyword partial application, f.partial(x=x)()."""
+    if fn.endswith("%kw"):
+        return fobj(fn[:-3]).partial(x=x)()
+    return fobj(fn)(x)
 
 
 def expected(fn, x):
